@@ -86,12 +86,27 @@ def gen_obo_scn_c14f(Scn, rng, sid):
             sc.bursts.append([line])
     # tail (laws only, the model comparison stops before it): a member whose user a root session is attached as
     # unsubscribes ({leave unsub} -> Topic.evictUser detaches every session attached as that user, the root one included)
-    if rng.random() < 0.35:
-        cand = [(s, k) for (s, k), u in sorted(att.items()) if s not in roots and s in alive and u != sc.topics[k]["owner"]
-                and any(x in roots and kk == k and uu == u for (x, kk), uu in att.items())]
-        if cand:
-            s, k = rng.choice(cand)
-            sc.bursts.append(["q %d r%d leave %d 1" % (s, rid + 1, k)])
+    if rng.random() < 0.3:
+        ks = [k for k in sc.topics if k not in deleted]
+        us = [u for u in regular if u in [sc.sessions[s]["user"] for s in alive if s not in roots]]
+        if ks and us:
+            k = rng.choice(ks)
+            us = [u for u in us if u != sc.topics[k]["owner"]]
+            rs = [x for x in roots if x in alive]
+            if us and rs:
+                u = rng.choice(us)
+                s = [x for x in sorted(alive) if x not in roots and sc.sessions[x]["user"] == u][0]
+                if not any(x in roots and kk == k and uu == u for (x, kk), uu in att.items()):
+                    free = [x for x in rs if (x, k) not in att]
+                    if free:
+                        rid += 1
+                        att[(free[0], k)] = u
+                        sc.bursts.append(["q %d r%d sub %d 0 obo=%d" % (free[0], rid, k, u)])
+                if (s, k) not in att:
+                    rid += 1
+                    att[(s, k)] = u
+                    sc.bursts.append(["q %d r%d sub %d" % (s, rid, k)])
+                sc.bursts.append(["q %d r%d leave %d 1" % (s, rid + 1, k)])
     return sc
 
 
